@@ -12,7 +12,9 @@ use syn::{
 use crate::{
     bound::{Bound, Bounds, WhereClauseBuilder},
     common::BinaryOp,
-    syn_utils::{expand_self, parenthesize_invisible_groups, ref_target, with_lint_attrs},
+    syn_utils::{
+        brace_const_args, expand_self, parenthesize_invisible_groups, ref_target, with_lint_attrs,
+    },
 };
 
 use self::compare_op::{
@@ -188,7 +190,8 @@ fn build_binary_op(
     let kind = DeriveItemKind::BinaryOp(op);
     let (_, type_g, _) = item.generics.split_for_impl();
     let this_ty_ident = &item.ident;
-    let this_ty: Type = parse_quote!(#this_ty_ident #type_g);
+    let this_ty: Type =
+        brace_const_args(parse_quote!(#this_ty_ident #type_g), &item.generics);
     let generics = expand_self(&item.generics, &this_ty);
     let (impl_g, _, _) = generics.split_for_impl();
     let trait_ = kind.to_path();
@@ -247,7 +250,8 @@ fn build_assign_op(
     let kind = DeriveItemKind::AssignOp(op);
     let (_, type_g, _) = item.generics.split_for_impl();
     let this_ty_ident = &item.ident;
-    let this_ty: Type = parse_quote!(#this_ty_ident #type_g);
+    let this_ty: Type =
+        brace_const_args(parse_quote!(#this_ty_ident #type_g), &item.generics);
     let generics = expand_self(&item.generics, &this_ty);
     let (impl_g, _, _) = generics.split_for_impl();
     let trait_ = kind.to_path();
@@ -294,7 +298,8 @@ fn build_unary_op(
     let kind = DeriveItemKind::UnaryOp(op);
     let (_, type_g, _) = item.generics.split_for_impl();
     let this_ty_ident = &item.ident;
-    let this_ty: Type = parse_quote!(#this_ty_ident #type_g);
+    let this_ty: Type =
+        brace_const_args(parse_quote!(#this_ty_ident #type_g), &item.generics);
     let generics = expand_self(&item.generics, &this_ty);
     let (impl_g, _, _) = generics.split_for_impl();
     let trait_ = kind.to_path();
@@ -345,7 +350,8 @@ fn build_clone_for_struct(
     let kind = DeriveItemKind::Clone;
     let (impl_g, type_g, _) = item.generics.split_for_impl();
     let this_ty_ident = &item.ident;
-    let this_ty: Type = parse_quote!(#this_ty_ident #type_g);
+    let this_ty: Type =
+        brace_const_args(parse_quote!(#this_ty_ident #type_g), &item.generics);
     let trait_ = kind.to_path();
 
     let mut wcb = WhereClauseBuilder::new(&item.generics);
@@ -382,7 +388,8 @@ fn build_clone_for_enum(
     let kind = DeriveItemKind::Clone;
     let (impl_g, type_g, _) = item.generics.split_for_impl();
     let this_ty_ident = &item.ident;
-    let this_ty: Type = parse_quote!(#this_ty_ident #type_g);
+    let this_ty: Type =
+        brace_const_args(parse_quote!(#this_ty_ident #type_g), &item.generics);
     let trait_ = kind.to_path();
 
     let mut wcb = WhereClauseBuilder::new(&item.generics);
@@ -450,7 +457,8 @@ fn build_copy_for_struct(
     let kind = DeriveItemKind::Copy;
     let (impl_g, type_g, _) = item.generics.split_for_impl();
     let this_ty_ident = &item.ident;
-    let this_ty: Type = parse_quote!(#this_ty_ident #type_g);
+    let this_ty: Type =
+        brace_const_args(parse_quote!(#this_ty_ident #type_g), &item.generics);
     let trait_ = kind.to_path();
 
     let mut wcb = WhereClauseBuilder::new(&item.generics);
@@ -472,7 +480,8 @@ fn build_copy_for_enum(
     let kind = DeriveItemKind::Copy;
     let (impl_g, type_g, _) = item.generics.split_for_impl();
     let this_ty_ident = &item.ident;
-    let this_ty: Type = parse_quote!(#this_ty_ident #type_g);
+    let this_ty: Type =
+        brace_const_args(parse_quote!(#this_ty_ident #type_g), &item.generics);
     let trait_ = kind.to_path();
 
     let mut wcb = WhereClauseBuilder::new(&item.generics);
@@ -501,7 +510,8 @@ fn build_debug_for_struct(
     let kind = DeriveItemKind::Debug;
     let (impl_g, type_g, _) = item.generics.split_for_impl();
     let this_ty_ident = &item.ident;
-    let this_ty: Type = parse_quote!(#this_ty_ident #type_g);
+    let this_ty: Type =
+        brace_const_args(parse_quote!(#this_ty_ident #type_g), &item.generics);
     let trait_ = kind.to_path();
 
     let mut wcb = WhereClauseBuilder::new(&item.generics);
@@ -538,7 +548,8 @@ fn build_debug_for_enum(
     let kind = DeriveItemKind::Debug;
     let (impl_g, type_g, _) = item.generics.split_for_impl();
     let this_ty_ident = &item.ident;
-    let this_ty: Type = parse_quote!(#this_ty_ident #type_g);
+    let this_ty: Type =
+        brace_const_args(parse_quote!(#this_ty_ident #type_g), &item.generics);
     let trait_ = kind.to_path();
 
     let mut wcb = WhereClauseBuilder::new(&item.generics);
@@ -657,7 +668,8 @@ fn build_default_for_struct(
     let kind = DeriveItemKind::Default;
     let (impl_g, type_g, _) = item.generics.split_for_impl();
     let this_ty_ident = &item.ident;
-    let this_ty: Type = parse_quote!(#this_ty_ident #type_g);
+    let this_ty: Type =
+        brace_const_args(parse_quote!(#this_ty_ident #type_g), &item.generics);
     let trait_ = kind.to_path();
 
     let mut wcb = WhereClauseBuilder::new(&item.generics);
@@ -695,7 +707,8 @@ fn build_default_for_enum(
     let kind = DeriveItemKind::Default;
     let (impl_g, type_g, _) = item.generics.split_for_impl();
     let this_ty_ident = &item.ident;
-    let this_ty: Type = parse_quote!(#this_ty_ident #type_g);
+    let this_ty: Type =
+        brace_const_args(parse_quote!(#this_ty_ident #type_g), &item.generics);
     let trait_ = kind.to_path();
 
     let mut wcb = WhereClauseBuilder::new(&item.generics);
@@ -791,7 +804,8 @@ fn build_deref_for_struct(
     let kind = e.kind;
     let (impl_g, type_g, _) = item.generics.split_for_impl();
     let this_ty_ident = &item.ident;
-    let this_ty: Type = parse_quote!(#this_ty_ident #type_g);
+    let this_ty: Type =
+        brace_const_args(parse_quote!(#this_ty_ident #type_g), &item.generics);
     let trait_ = kind.to_path();
 
     let mut wcb = WhereClauseBuilder::new(&item.generics);
